@@ -18,6 +18,10 @@ Decided structurally (writer is the oracle for the reader and vice versa; nothin
   C10.dumpkinds Phreeqc::dump_ostream has one block per kind, each block touches one kind only, all eleven kinds covered;
                 StorageBinList::GetAllItems returns every kind's list exactly once; dumper/StorageBinList option words
                 reach every kind
+  C10.nested    nesting protocol of RAW text, per (parent, component) reader pair: the nested reader hands back on an option it does not
+                know, the parent re-reads that line, the introducing line carries the key the reader extracts, and the introducing
+                option is not a prefix of a nested option
+  C10.nan       members the engine sets to NAN and dump_raw writes unconditionally are read back NaN-tolerantly
 Not decided: (e) textual fixed point of dump -> read -> dump (number formatting), (f) equality of follow-up results
 (derived quantities recomputed on read); phreeqc2cxxStorageBin / InternalCopy bulk copies are checked in the thorough tier
 (C10.bulk).
@@ -52,6 +56,197 @@ def subset_compat(w, r):
     return missing
 
 
+def nested_rule(P, R):
+    """"reading it back raises no errors": an entity's RAW text nests the text of its components (exchange components, surface components
+    and charges, gas components, phases of an assemblage, solid solutions and their components, kinetic components, the isotopes of a
+    solution).  The nesting protocol has four parts, each decided for every (parent reader, nested reader) pair:
+      hand-back   the nested reader returns to its parent on an option it does not know (its default / error case sets OPT_KEYWORD and
+                  reports nothing) - it cannot know where its text ends;
+      re-read     the parent then processes that same line again (`useLastLine = true` after the nested call);
+      key         the line that introduces the nested text carries the key the parent's reader extracts before it delegates (the writer
+                  streams a value after the option text);
+      prefix      the introducing option, as the writer spells it, is not a prefix of any option of the nested reader (option matching is
+                  by prefix: `-isotope` inside an isotope block selects -isotope_number)."""
+    RULE = "C10.nested"
+    R.rule(RULE, "nesting protocol of RAW text for every (parent, component) reader pair: hand-back, re-read, key on the introducing line, no prefix clash", minimum=30)
+    import re
+    COMPONENT = re.compile(r"^cxx(ExchComp|SurfaceComp|SurfaceCharge|GasComp|PPassemblageComp|SS|SScomp|KineticsComp|SolutionIsotope)::read_raw$")
+    npairs = 0
+    for f in sorted(P.functions.values(), key=lambda g: (g["q"], g["line"])):
+        if not f.get("body") or not f["q"].endswith("::read_raw") or f["q"].startswith("cxxStorageBin"):
+            continue
+        parent = f["q"].split("::")[0]
+        where = dict(file=f["file"], function=f["q"])
+        for case in T.walk(f["body"]):
+            if case[0] != "Switch":
+                continue
+            # statements of the switch body, split at case labels
+            body = case[3][2] if T.is_node(case[3]) and case[3][0] == "Compound" else []
+            groups, cur = [], []
+            for st in body:
+                if T.is_node(st) and st[0] in ("Case", "Default"):
+                    if cur:
+                        groups.append(cur)
+                    cur = [st]
+                else:
+                    cur.append(st)
+            if cur:
+                groups.append(cur)
+            for g in groups:
+                calls = [c for st in g for c in T.calls(st) if COMPONENT.match(T.callee_q(c) or "")]
+                for c in calls:
+                    nested = T.callee_q(c).split("::")[0]
+                    if nested == parent:
+                        continue
+                    npairs += 1
+                    pair = "%s>%s@%d" % (parent.replace("cxx", ""), nested.replace("cxx", ""), c[1])
+                    # re-read
+                    ull = any(y[0] == "Bin" and y[2] == "=" and T.text(y[3]) == "useLastLine" and str(T.strip_casts(y[4])[3]) in ("1", "true") for st in g for y in T.walk(st))
+                    if ull:
+                        R.ok(RULE, pair + ":re-read", "useLastLine = true after the nested read")
+                    else:
+                        R.violation(RULE, pair + ":re-read", "after %s::read_raw returns, %s does not process the line the nested reader stopped at (no `useLastLine = true`): the option "
+                                    "following the nested text is lost or reported as unknown" % (nested, f["q"]), line=c[1], **where)
+                    # hand-back
+                    nf = P.fns_named(nested + "::read_raw")
+                    nf = [x for x in nf if x.get("body")]
+                    if not nf:
+                        R.anchor_missing(RULE, "%s::read_raw has no body in the facts" % nested)
+                        continue
+                    nfn = nf[0]
+                    hb = None
+                    for sw in T.walk(nfn["body"]):
+                        if sw[0] != "Switch":
+                            continue
+                        b2 = sw[3][2] if T.is_node(sw[3]) and sw[3][0] == "Compound" else []
+                        grp, on = [], False
+                        for st in b2:
+                            if T.is_node(st) and st[0] in ("Case", "Default"):
+                                lab = T.text(st[2]) if st[0] == "Case" else "default"
+                                if "OPT_DEFAULT" in lab or "OPT_ERROR" in lab or lab == "default":
+                                    on = True
+                                    grp.append(st)
+                                    continue
+                                if on and grp and not any(T.is_node(z) and z[0] == "Break" for z in grp):
+                                    grp.append(st)      # fall-through label
+                                    continue
+                                on = False
+                            elif on:
+                                grp.append(st)
+                        if grp:
+                            txt = " ".join(T.text(y) for st in grp for y in T.walk(st) if T.is_node(y) and y[0] in ("Bin", "Call"))
+                            errs = any(T.callee_name(cc) == "error_msg" for st in grp for cc in T.calls(st))
+                            keyw = "OPT_KEYWORD" in txt
+                            hb = (keyw and not errs, errs)
+                    if hb is None:
+                        R.anchor_missing(RULE, "%s::read_raw: default / error case of the option switch not found" % nested)
+                    elif hb[0]:
+                        R.ok(RULE, pair + ":hand-back", "unknown option -> OPT_KEYWORD, no message")
+                    else:
+                        R.violation(RULE, pair + ":hand-back", "%s::read_raw %s an option it does not know instead of returning to %s: every option of the parent that follows "
+                                    "the nested text is consumed by the nested reader" % (nested, "reports" if hb[1] else "does not hand back", parent),
+                                    file=nfn["file"], line=nfn["line"], function=nfn["q"])
+    # key + prefix: the writer side
+    VT = rawio.vopts_tables(P)
+    for f in sorted(P.functions.values(), key=lambda g: (g["q"], g["line"])):
+        if not f.get("body") or not f["q"].endswith("::dump_raw"):
+            continue
+        parent = f["q"].split("::")[0]
+        stmts = [x for x in T.walk(f["body"]) if x[0] == "Compound"]
+        for blk in stmts:
+            seq = [st for st in blk[2] if T.is_node(st)]
+            for i, st in enumerate(seq):
+                nc = [c for c in T.calls(st) if (T.callee_q(c) or "").endswith("::dump_raw") and re.match(r"^cxx(ExchComp|SurfaceComp|SurfaceCharge|GasComp|PPassemblageComp|SS|SScomp|KineticsComp|SolutionIsotope)::dump_raw$", T.callee_q(c) or "")]
+                if not nc or i == 0 or st[0] in ("For", "RangeFor", "While", "If", "Compound"):
+                    continue
+                nested = T.callee_q(nc[0]).split("::")[0]
+                if nested == parent:
+                    continue
+                prev = seq[i - 1]
+                lits = [str(T.strip_casts(y)[3]).strip('"') for y in T.walk(prev) if y[0] == "Lit" and y[2] == "str"]
+                opt = [l.strip() for l in lits if l.strip().startswith("-")]
+                if not opt:
+                    continue
+                optname = opt[0].lstrip("-").split()[0].lower()
+                inst = "%s>%s:-%s" % (parent.replace("cxx", ""), nested.replace("cxx", ""), optname)
+                # does the parent's reader extract a key for this option?  (iss >> name before delegating)
+                npairs += 1
+                streams_value = any(y[0] in ("Member", "Ref", "Call") and y is not None and ("first" in T.text(y) or "Get_name" in T.text(y) or "Get_phase_name" in T.text(y) or "Get_formula" in T.text(y)
+                                                                                           or "Get_rate_name" in T.text(y) or "Get_isotope_name" in T.text(y))
+                                    for y in T.walk(prev) if T.is_node(y))
+                if streams_value:
+                    R.ok(RULE, inst + ":key", "the introducing line carries the key")
+                else:
+                    R.violation(RULE, inst + ":key", "%s writes `-%s` without the key of the nested %s, which the reader extracts before it delegates: the dump cannot be read back"
+                                % (f["q"], optname, nested), file=f["file"], line=prev[1], function=f["q"])
+                # prefix clash with the nested reader's options
+                nopts = [w for w in (VT.get(nested, {}).get("words") or []) if w]
+                if nopts:
+                    clash = [o for o in nopts if o.lower().startswith(optname)]
+                    if clash:
+                        R.violation(RULE, inst + ":prefix", "`-%s` is a prefix of the nested option `-%s` of %s: inside the nested text the introducing line of the NEXT component is "
+                                    "taken for that option" % (optname, clash[0], nested), file=f["file"], line=prev[1], function=f["q"])
+                    else:
+                        R.ok(RULE, inst + ":prefix", "no nested option starts with `%s`" % optname)
+    if npairs < 10:
+        R.anchor_missing(RULE, "only %d parent / component pairs found" % npairs)
+
+
+def nan_rule(P, R):
+    """A member that the engine deliberately sets to NAN (`Set_x(NAN)`: "not given") and that dump_raw writes is written as `nan`.
+    Stream extraction of a double (`iss >> x`) rejects that text, so the entity's own dump raises an error when it is read back.  The
+    read_raw case of such a member has to parse the token NaN-tolerantly (strtod / sscanf)."""
+    RULE = "C10.nan"
+    R.rule(RULE, "members the engine sets to NAN and dump_raw writes unconditionally are read back with a NaN-tolerant conversion", minimum=1)
+    tab = json.load(open(os.path.join(VERIF, "tables", "c10_nan_exempt.json")))
+    R.table("c10_nan_exempt.json", tab)
+    exempt = tab["rows"]
+    used = set()
+    setters = {}
+    for f in P.functions.values():
+        if not f.get("body"):
+            continue
+        for c in T.calls(f["body"]):
+            q = T.callee_q(c) or ""
+            if "::Set_" in q and c[4] and any(y[0] == "Call" and (T.callee_q(y) or "").startswith("__builtin_nan") for y in T.walk(c[4][0])):
+                setters.setdefault(q, (f, c))
+    n = 0
+    for q, (f, c) in sorted(setters.items()):
+        cls, meth = q.rsplit("::", 1)
+        member = meth[len("Set_"):]
+        rd = [g for g in P.fns_named(cls + "::read_raw") if g.get("body")]
+        dm = [g for g in P.fns_named(cls + "::dump_raw") if g.get("body")]
+        if not rd or not dm:
+            continue
+        # written unconditionally by dump_raw?
+        uncond = False
+        for st in dm[0]["body"][2]:
+            if T.is_node(st) and st[0] not in ("If", "For", "While", "RangeFor") and any(y[0] == "Member" and y[2] == cls + "::" + member for y in T.walk(st)):
+                uncond = True
+        if not uncond:
+            continue
+        n += 1
+        inst = "%s::%s" % (cls, member)
+        # the reader: any `iss >> this->member`
+        direct = None
+        for x in T.walk(rd[0]["body"]):
+            if x[0] == "Call" and T.callee_name(x) == "operator>>" and any(y[0] == "Member" and y[2] == cls + "::" + member for y in T.walk(x)):
+                direct = x
+        if direct is not None and inst in exempt:
+            used.add(inst)
+            R.ok(RULE, inst, "exempt (%s): %s" % (exempt[inst]["kind"], exempt[inst]["reason"][:120]))
+        elif direct is not None:
+            R.violation(RULE, inst, "%s is set to NAN at %s:%d and written by dump_raw as `nan`, but read_raw extracts it with `iss >> %s`, which rejects that text: the entity's "
+                        "own dump raises `Expected numeric value` when read back" % (inst, f["q"].split("::")[-1], c[1], member), file=rd[0]["file"], line=direct[1], function=rd[0]["q"])
+        else:
+            R.ok(RULE, inst, "not read by stream extraction of a double (NaN-tolerant conversion)")
+    for k in exempt:
+        if k not in used:
+            R.info.setdefault("redundant_exemption_rows", []).append("C10.nan:" + k)
+    if n == 0:
+        R.anchor_missing(RULE, "no member that is set to NAN and dumped unconditionally was found (confirmed: cxxGasComp::p_read)")
+
+
 def run(P, R, tier):
     R.undecided += [
         "(e) dump -> read -> dump is a textual fixed point (number formatting / precision)",
@@ -59,6 +254,8 @@ def run(P, R, tier):
     ]
     K = KN.get(P)
     crossreset_rule(P, R)
+    nested_rule(P, R)
+    nan_rule(P, R)
     onceflag_rule(P, R)
     # ------------------------------------------------------------------ C10.findopt
     R.rule("C10.findopt", "CParser::find_option: lower-cased token, exact match first, then first entry that begins with it", minimum=1)
